@@ -262,7 +262,7 @@ func (g *G) fill(s *influxql.SelectStatement) {
 		n, _ := strconv.ParseInt(t, 10, 64)
 		s.Fill, s.FillValue = influxql.NumberFill, n
 	case 5:
-		t := g.value(NUM, "fill.num", []string{"1.5", "3.0", "100000000000000000000.0"}[g.pick(3)])
+		t := g.value(NUM, "fill.num", []string{"1.5", "3.0", "100000000000000000000.0", "0.00001"}[g.pick(4)])
 		f, _ := strconv.ParseFloat(t, 64)
 		s.Fill, s.FillValue = influxql.NumberFill, f
 	case 6:
